@@ -67,6 +67,13 @@ def connNames (h : Hdr) : List Bytes :=
 
 def hopList (hop : List Bytes) (h : Hdr) : List Bytes := hop ++ connNames h
 
+/-- `connNames` / `hopRemove` with both tables as parameters (used by C29 with its own regenerated copies) -/
+def connNamesP (prot : List Bytes) (h : Hdr) : List Bytes :=
+  (((lookup h kConnection).flatMap fun f => (splitOn 44 f).map trimSpace).map canon).filter
+    fun n => !n.isEmpty && !prot.contains n
+
+def hopRemoveP (hop prot : List Bytes) (h : Hdr) : Hdr := (hop ++ connNamesP prot h).foldl hopStep h
+
 def hopRemove (hop : List Bytes) (h : Hdr) : Hdr := (hopList hop h).foldl hopStep h
 
 /-- `exclude[k]` of `Request.write`, from THIS property's regenerated copy of the table (so that a C26
